@@ -20,7 +20,7 @@ ASSUMPTIONS = [
     "thewalrus.perm stubbed by a definitional permanent",
 ]
 BOUNDS = {
-    "quick": "(plus univariate shapes - rational beam splitters, one symbolic loss - with 3 photons) U1: SLOS on an arbitrary symbolic 2x2/3x3 matrix, all inputs <=3 photons; U2: both backends on symbolic bs/ps/loss circuits with <=2 real + <=2 loss modes, <=2 photons, every threshold path; U3: pdist_calc with arbitrary symbolic sub-distributions for 1-2 source inputs; U4: Sampler end to end on the U2 shapes plus a heralded circuit",
+    "quick": "(plus univariate shapes - rational beam splitters, one symbolic loss - with 3 photons) U1: SLOS on an arbitrary symbolic 2x2/3x3 matrix, all inputs <=3 photons; U2: both backends on symbolic bs/ps/loss circuits with <=2 real + <=2 loss modes, <=2 photons, every threshold path; U3: pdist_calc with arbitrary symbolic sub-distributions for 1-2 source inputs; U4: Sampler end to end on the U2 shapes plus heralded circuits (incl. inputs whose photons all sit on heralded modes)",
     "thorough": "U1 up to 4x4 / 3 photons; U2 with 3 real modes and 3 photons on the lossless shapes",
 }
 OUTSIDE = "float rounding; photon numbers above the bound; the clifford backend (not implemented)"
